@@ -100,6 +100,15 @@ func runSleep(c *Case) *Obs {
 			}
 		}
 	}
+	// a scenario without an explicit join (e.g. after shrinking) still waits for its call before the clean-up,
+	// so that the clean-up cancel can never be mistaken for an unexplained context error
+	if done != nil {
+		select {
+		case <-done:
+		case <-time.After(hangTimeout):
+			aux["hung"] = true
+		}
+	}
 	// clean up: end the context, wait for the call
 	if cancel != nil {
 		cancel()
